@@ -278,3 +278,63 @@ theorem renderRow_chars (row : List (List Char × List Char)) (h : RowOk row) :
     · exact ih hr c hc
 
 end Gep.DF
+
+/-! ### value of a literal -/
+namespace Gep.DF
+
+theorem takeWhile_digits (ds r : List Char) (hd : ∀ c ∈ ds, isDigit c = true)
+    (hr : r = [] ∨ ∃ c r', r = c :: r' ∧ isDigit c = false) :
+    (ds ++ r).takeWhile isDigit = ds ∧ (ds ++ r).dropWhile isDigit = r := by
+  induction ds with
+  | nil =>
+    rcases hr with rfl | ⟨c, r', rfl, hc⟩
+    · simp
+    · simp [List.takeWhile_cons, List.dropWhile_cons, hc]
+  | cons a ds ih =>
+    have ha : isDigit a = true := hd a (by simp)
+    have := ih (fun c hc => hd c (by simp [hc]))
+    simp [List.takeWhile_cons, List.dropWhile_cons, ha, this.1, this.2]
+
+/-- a decimal literal in structured form: sign, integer digits, optional fraction, optional exponent -/
+structure Lit where
+  neg : Option Bool            -- some true = '-', some false = '+', none = no sign
+  ip : List Char               -- integer digits
+  fp : Option (List Char)      -- digits after the '.', if there is one
+  ex : Option (Char × Option Bool × List Char)   -- exponent marker (e/E), sign, digits
+
+def signChars : Option Bool → List Char
+  | some true => ['-']
+  | some false => ['+']
+  | none => []
+
+def fracChars : Option (List Char) → List Char
+  | some f => '.' :: f
+  | none => []
+
+def expChars : Option (Char × Option Bool × List Char) → List Char
+  | some (e, s, d) => e :: (signChars s ++ d)
+  | none => []
+
+def Lit.chars (l : Lit) : List Char :=
+  signChars l.neg ++ (l.ip ++ (fracChars l.fp ++ expChars l.ex))
+
+def Lit.Digits (l : Lit) : Prop :=
+  (∀ c ∈ l.ip, isDigit c = true) ∧ (∀ f, l.fp = some f → ∀ c ∈ f, isDigit c = true) ∧
+  (∀ e s d, l.ex = some (e, s, d) → isDigit e = false ∧ e ≠ '.' ∧ (∀ c ∈ d, isDigit c = true) ∧
+    (s = none → ∃ c d', d = c :: d')) ∧
+  (l.ip = [] → ∃ f, l.fp = some f)    -- after the sign comes a digit or the '.'
+
+/-- the written exponent -/
+def expVal : Option (Char × Option Bool × List Char) → Int
+  | some (_, some true, d) => -(natOfDigits d : Int)
+  | some (_, _, d) => (natOfDigits d : Int)
+  | none => 0
+
+/-- the decimal value the literal denotes: mantissa = all digits read as one number,
+    exponent = written exponent − number of fraction digits -/
+def Lit.value (l : Lit) : Dec :=
+  { neg := l.neg == some true,
+    mant := natOfDigits (l.ip ++ (l.fp.getD [])),
+    exp := expVal l.ex - ((l.fp.getD []).length : Int) }
+
+end Gep.DF
